@@ -254,7 +254,33 @@ func checkCodec(w *World, r *Report, rule string) {
 				for _, ref := range *v.Referrers() {
 					switch x := ref.(type) {
 					case *ssa.If:
-						decides = append(decides, w.pos(x.Cond.Pos()))
+						// a refusal of its own: from this branch a return with an error that is not nil is reached
+						// without the codec having been asked
+						dg := w.FGI(des)
+						n := dg.idx[x]
+						asked := make([]bool, len(dg.ins))
+						for i, in := range dg.ins {
+							if c := callOf(in); c != nil {
+								if f := c.StaticCallee(); f != nil && strings.HasPrefix(f.String(), "google.golang.org/protobuf/proto.Unmarshal") {
+									asked[i] = true
+								}
+								if c.IsInvoke() && c.Method.Name() == "UnmarshalVT" {
+									asked[i] = true
+								}
+							}
+						}
+						rr := dg.reach(dg.succ[n], asked, nil)
+						for _, rx := range dg.returns {
+							if !rr[rx] {
+								continue
+							}
+							ret := dg.ins[rx].(*ssa.Return)
+							if len(ret.Results) == 2 {
+								if k, isK := ret.Results[1].(*ssa.Const); !isK || !k.IsNil() {
+									decides = append(decides, w.pos(x.Cond.Pos()))
+								}
+							}
+						}
 					case *ssa.Call:
 						if b, ok := x.Call.Value.(*ssa.Builtin); ok && (b.Name() == "len" || b.Name() == "cap") && !taint[x] {
 							taint[x] = true
@@ -269,7 +295,7 @@ func checkCodec(w *World, r *Report, rule string) {
 				}
 			}
 		}
-		r.Check(data != nil && len(decides) == 0, rule, "codec:payload-not-judged", "the active deserializer branches on nothing computed from the payload bytes: whether they are a valid encoding is decided by the codec", w.fnPos(des),
+		r.Check(data != nil && len(decides) == 0, rule, "codec:payload-not-judged", "the active deserializer refuses no payload on its own: no branch on something computed from the payload bytes leads to an error return without the codec having been asked", w.fnPos(des),
 			"Deserialize branches on the payload at "+strings.Join(decides, ", ")+": an encoding the peer's codec produced (a message with all fields at their default is zero bytes long) is refused, the reader returns and the rest of the batch is lost with the stream")
 	}
 }
